@@ -7,38 +7,38 @@ From GL Require Import Common.Bytes Io.IoSpec Io.IoImpl Io.IoSys Io.IoReadFacts 
 (* Every disciplined history (a positioning op or flush between a read and a following write and
    between a write and a following read) on a freshly opened handle, in every mode, on a file of
    any size, under ANY chunking of the reads: each operation returns what the cursor model returns
-   and the state keeps standing for the model's contents and cursor.  ("*n" first in its read;
-   no "\r" in the file or the written strings; numerals of the decimal fragment.) *)
+   and the state keeps standing for the model's contents and cursor.  (No "\r" in the file or the
+   written strings; no exponent part next to a "*n" read.) *)
 Theorem io_refines : forall (ch : Z -> Z -> Z -> Z) m init ops,
-  disc1 LNone ops = true -> numfirst ops = true ->
+  disc1 LNone ops = true ->
   cr_free init = true -> forallb op_cr_free ops = true ->
   supported (spec_results false (fst (s_open m init)) (snd (s_open m init)) ops) = true ->
   let '(d', h', rs) := irun ch (fst (i_open m init)) (snd (i_open m init)) ops in
   let '(c', s', rs') := srun false (fst (s_open m init)) (snd (s_open m init)) ops in
-  Forall2 res_sim rs rs' /\ c' = abs_content d' h' /\ s' = abs_h d' h'.
+  rs = rs' /\ c' = abs_content d' h' /\ s' = abs_h d' h'.
 Proof. exact io_refines_lemma. Qed.
 Print Assumptions io_refines.
 
 (* The same for arbitrary bytes, against the cursor model with the code's line rule
    (a "\r" before the line's "\n" is dropped too). *)
 Theorem io_refines_crlf : forall (ch : Z -> Z -> Z -> Z) m init ops,
-  disc1 LNone ops = true -> numfirst ops = true ->
+  disc1 LNone ops = true ->
   supported (spec_results true (fst (s_open m init)) (snd (s_open m init)) ops) = true ->
   let '(d', h', rs) := irun ch (fst (i_open m init)) (snd (i_open m init)) ops in
   let '(c', s', rs') := srun true (fst (s_open m init)) (snd (s_open m init)) ops in
-  Forall2 res_sim rs rs' /\ c' = abs_content d' h' /\ s' = abs_h d' h'.
+  rs = rs' /\ c' = abs_content d' h' /\ s' = abs_h d' h'.
 Proof. exact io_refines_crlf_lemma. Qed.
 Print Assumptions io_refines_crlf.
 
 (* One step from any reachable state (the invariant), any operation the discipline allows. *)
 Theorem io_step_refines : forall (ch : Z -> Z -> Z -> Z) disk h l l' o d' h' r c' s' r',
   Inv disk h -> (is_LWrite l = false -> pending h = []) ->
-  disc1_step l o = Some l' -> numfirst_op o = true ->
+  disc1_step l o = Some l' ->
   istep ch disk h o = (d', h', r) ->
   sstep true (abs_content disk h) (abs_h disk h) o = (c', s', r') ->
   r' <> RUnsupported ->
   Inv d' h' /\ (is_LWrite l' = false -> pending h' = []) /\
-  c' = abs_content d' h' /\ s' = abs_h d' h' /\ res_sim r r'.
+  c' = abs_content d' h' /\ s' = abs_h d' h' /\ r = r'.
 Proof. exact step_sim. Qed.
 Print Assumptions io_step_refines.
 
@@ -46,7 +46,7 @@ Print Assumptions io_step_refines.
    reads them (also with a buffered writer: setvbuf "full"/"line"). *)
 Theorem visible_after_flush_close : forall (ch : Z -> Z -> Z -> Z) m init ops o,
   (o = OFlush \/ o = OClose) ->
-  disc1 LNone (ops ++ [o]) = true -> numfirst ops = true ->
+  disc1 LNone (ops ++ [o]) = true ->
   supported (spec_results true (fst (s_open m init)) (snd (s_open m init)) (ops ++ [o])) = true ->
   let '(d', h', _) := irun ch (fst (i_open m init)) (snd (i_open m init)) (ops ++ [o]) in
   let '(c', _, _) := srun true (fst (s_open m init)) (snd (s_open m init)) (ops ++ [o]) in
@@ -60,15 +60,15 @@ Print Assumptions visible_after_flush_close.
    the bytes the model has (the first handle idle meanwhile). *)
 Theorem second_handle_refines : forall (ch : Z -> Z -> Z -> Z) m init ops o m2 ops2,
   (o = OFlush \/ o = OClose) ->
-  disc1 LNone (ops ++ [o]) = true -> numfirst ops = true ->
+  disc1 LNone (ops ++ [o]) = true ->
   supported (spec_results true (fst (s_open m init)) (snd (s_open m init)) (ops ++ [o])) = true ->
-  disc1 LNone ops2 = true -> numfirst ops2 = true ->
+  disc1 LNone ops2 = true ->
   let '(d1, _, _) := irun ch (fst (i_open m init)) (snd (i_open m init)) (ops ++ [o]) in
   let '(c1, _, _) := srun true (fst (s_open m init)) (snd (s_open m init)) (ops ++ [o]) in
   supported (spec_results true (fst (s_open m2 c1)) (snd (s_open m2 c1)) ops2) = true ->
   let '(d', h', rs) := irun ch (fst (i_open m2 d1)) (snd (i_open m2 d1)) ops2 in
   let '(c', s', rs') := srun true (fst (s_open m2 c1)) (snd (s_open m2 c1)) ops2 in
-  Forall2 res_sim rs rs' /\ c' = abs_content d' h' /\ s' = abs_h d' h'.
+  rs = rs' /\ c' = abs_content d' h' /\ s' = abs_h d' h'.
 Proof. exact second_handle_refines_lemma. Qed.
 Print Assumptions second_handle_refines.
 
@@ -117,8 +117,8 @@ Proof. exact close_closes. Qed.
 Print Assumptions close_closes_handle.
 
 (* The statement at full strength, [io_refines_full] (IoTheorems.v: io_refines without the
-   hypotheses on "\r" and on the place of "*n"), is false of the code as it is; the two
-   theorems after this one give the witnesses (findings C19-3, C19-11). *)
+   hypothesis on "\r"), is false of the code as it is; the theorem after this one gives the
+   witness (finding C19-3). *)
 Theorem io_refines_full_refuted : ~ io_refines_full.
 Proof. exact io_refines_full_refuted_lemma. Qed.
 Print Assumptions io_refines_full_refuted.
@@ -126,26 +126,17 @@ Print Assumptions io_refines_full_refuted.
 (* C19-3 (listed): io_refines fails without "no \r in the file": read("*l") on "abc\r\nx". *)
 Theorem io_refines_cr_refuted :
   exists m init ops,
-    disc1 LNone ops = true /\ numfirst ops = true /\ forallb op_cr_free ops = true /\
+    disc1 LNone ops = true /\ forallb op_cr_free ops = true /\
     supported (spec_results false (fst (s_open m init)) (snd (s_open m init)) ops) = true /\
     ~ refines_on ch_full m init ops.
 Proof. exact io_refines_cr_refuted_lemma. Qed.
 Print Assumptions io_refines_cr_refuted.
 
-(* C19-11 (listed): io_refines fails without "*n first": read(1, "*n") on "x abc". *)
-Theorem io_refines_multi_num_refuted :
-  exists m init ops,
-    disc1 LNone ops = true /\ cr_free init = true /\ forallb op_cr_free ops = true /\
-    supported (spec_results false (fst (s_open m init)) (snd (s_open m init)) ops) = true /\
-    ~ refines_on ch_full m init ops.
-Proof. exact io_refines_multi_num_refuted_lemma. Qed.
-Print Assumptions io_refines_multi_num_refuted.
-
 (* The discipline is needed (ISO C leaves this undefined; not a defect): a read straight after a
    buffered write does not see the pending bytes. *)
 Theorem io_refines_needs_discipline :
   exists m init ops,
-    numfirst ops = true /\ cr_free init = true /\ forallb op_cr_free ops = true /\
+    cr_free init = true /\ forallb op_cr_free ops = true /\
     supported (spec_results false (fst (s_open m init)) (snd (s_open m init)) ops) = true /\
     ~ refines_on ch_full m init ops.
 Proof. exact io_refines_needs_discipline_lemma. Qed.
